@@ -34,6 +34,8 @@ def template(position):
         "defaultparam": ["def take(NAME = \"s\")", "  dbtp NAME", "  NAME", "end", "dbtp take", "dbtp take(1)"],
         "keywordparam": ["def take(NAME: 1)", "  dbtp NAME", "  NAME", "end", "dbtp take(NAME: \"s\")"],
         "restparam": ["def take(*NAME)", "  dbtp NAME", "  NAME", "end", "dbtp take(1, 2)"],
+        "keywordpair": ["def take(NAME:, vq2:)", "  dbtp NAME", "  dbtp vq2", "  [NAME, vq2]", "end",
+                        "dbtp take(NAME: 1, vq2: \"s\")", "dbtp take(vq2: \"t\", NAME: 2.5)"],
         "patternvar": ["case 1", "in NAME", "  dbtp NAME", "end"],
         "patternarray": ["case [1, \"s\"]", "in [NAME, other_v]", "  dbtp NAME", "  dbtp other_v", "end"],
         "patternbind": ["case 1", "in Integer => NAME", "  dbtp NAME", "end"],
@@ -61,7 +63,7 @@ def template(position):
     return T[position]
 
 
-READS = {"assign", "opassign", "multiassign", "condassign", "blockparam", "braceblockparam", "methodparam", "defaultparam",
+READS = {"keywordpair", "assign", "opassign", "multiassign", "condassign", "blockparam", "braceblockparam", "methodparam", "defaultparam",
          "keywordparam", "restparam", "patternvar", "patternarray", "patternbind", "patternalt", "rescuevar", "forvar",
          "interpolation"}
 
